@@ -44,7 +44,9 @@ class ParticleSwarm(object):
     @property
     def relative_ess(self):
         """ESS normalized to number of particles."""
-        return self.ess / self.num_particles
+        # The ESS never exceeds the number of particles. Round-off must not push the ratio above one: with a resample
+        # threshold of 1 ("always resample") tied weights would otherwise skip resampling depending on their order.
+        return min(self.ess / self.num_particles, 1.0)
 
     @property
     def unnormalized_log_weights(self):
